@@ -97,7 +97,26 @@ class Gen15:
 
         g, r = self.g, self.rng
         k = r.choice(["lin2", "lin3", "linkw", "ulin3", "ulin2", "ulin_con", "ulinkw", "sdpa", "sdpa_mask_pos", "sdpa_causal_pos", "sdpa_kw", "usdpa", "usdpa_kw",
-                      "gelu", "tanh", "ln", "add", "reshape", "mul"])
+                      "ulin_pair", "ulin_pair", "lin_pair", "gelu", "tanh", "ln", "add", "reshape", "mul"])
+        if k in ("ulin_pair", "lin_pair"):
+            # NON-SQUARE weights (8 -> w -> 8): on square weights every constraint gives the same scales, which hides a
+            # wrong / dropped constraint; every way of passing the constraint (omitted, positional, keyword, None)
+            w = r.choice([3, 5, 16])
+            def one(inp, fo, fi):
+                if k == "lin_pair":
+                    return g.call_function(F.linear, (inp, self.param(fo, fi)) + ((self.param(fo),) if r.random() < 0.5 else ()))
+                style = r.choice(["omitted", "pos", "kw", "pos_none", "kw_none"])
+                con = r.choice(["gmean", "hmean", "to_grad_input_scale", "to_output_scale"])
+                bias = r.choice([None, "p"])
+                b = self.param(fo) if bias else None
+                if style == "omitted":
+                    return g.call_function(U.linear, (inp, self.param(fo, fi)) + ((b,) if b is not None else ()))
+                if style == "pos":
+                    return g.call_function(U.linear, (inp, self.param(fo, fi), b, con))
+                if style == "pos_none":
+                    return g.call_function(U.linear, (inp, self.param(fo, fi), b, None))
+                return g.call_function(U.linear, (inp, self.param(fo, fi)), dict({"constraint": con if style == "kw" else None}, **({"bias": b} if b is not None else {})))
+            return one(one(h, w, 8), 8, w)
         if k == "lin2":
             return g.call_function(F.linear, (h, self.param(8, 8)))
         if k == "lin3":
